@@ -24,10 +24,14 @@ def router_functions(chk):
         chk.function(R.FILE, fn)
 
 
-def router_trust(chk):
+def router_trust(chk, client_endpoints_discharged=False):
     chk.trusted_base += common.ENCODING + [
         "endpoint contract (assumed): device.accepts() is a pure predicate; message_from_client/message_from_device do not mutate "
-        "the router's registries or BLOB policies while it iterates and do not raise (Driver.snooping_client, which registers a client, is the documented exception)",
+        "the router's registries or BLOB policies while it iterates and do not raise (Driver.snooping_client, which registers a client, is the documented exception)"
+        + ("; DISCHARGED here for the shipped server-side client endpoints (tcp and tty ConnectionHandler.message_from_device: raises nothing given to_string "
+           "returns bytes [C03], awaits nothing, calls no router mutator, does not re-enter the router, does not close the connection); Driver.message_from_client's "
+           "exception freedom and frame are C12's obligations; it stays assumed for user-written endpoints and for SnoopingClient (whose delivery runs user callbacks)"
+           if client_endpoints_discharged else ""),
         "`==` on endpoints is identity (no __eq__ on Driver/ConnectionHandler/SnoopingClient: checked as a ground obligation)",
         "registration precondition (assumed): an endpoint is registered at most once at a time",
     ]
